@@ -210,13 +210,13 @@ pub fn fh_public(g: &Graph, limit: u64, min: u64) -> Vec<FirstHop> {
 		.iter()
 		.enumerate()
 		.filter(|(_, c)| c.a == PAYER)
-		.map(|(i, c)| FirstHop { scid: Graph::scid(i), to: c.b, limit, min, announced: true })
+		.map(|(i, c)| FirstHop { alias: None, scid: Graph::scid(i), to: c.b, limit, min, announced: true })
 		.collect()
 }
 
 pub fn fh_private(g: &Graph, limit: u64) -> Vec<FirstHop> {
 	let to = if has_node(g, 2) { 2 } else { PAYEE };
-	vec![FirstHop { scid: 800, to, limit, min: 0, announced: false }]
+	vec![FirstHop { alias: None, scid: 800, to, limit, min: 0, announced: false }]
 }
 
 fn hint_free(src: u8, scid: u64) -> HintHop {
@@ -415,6 +415,28 @@ pub fn queries(g: &Graph, fam: &Family, thorough: bool) -> Vec<Query> {
 				Tail::Blinded { .. } => q.failed_blinded = vec![0],
 			}
 			out.push(q);
+		}
+	}
+
+	// The invoice's route hint names one of the payer's own channels (by its real SCID or by its alias; the
+	// channel has both): the supplied first hop with its current limits is what counts, amounts around them.
+	{
+		let to = if has_node(g, 2) { 2 } else { PAYEE };
+		let (limit, min) = (300_000u64, 2_000u64);
+		let fh = vec![FirstHop { alias: Some(801), scid: 800, to, limit, min, announced: false }];
+		for named in [800u64, 801] {
+			let mut own = hint_free(PAYER, named);
+			own.max = Some(10_000_000);
+			let hint = if to == PAYEE { vec![own] } else { vec![own, hint_free(2, 900)] };
+			for a in [min - 1, min, limit / 2, limit, limit + 1, 2 * limit, 1_000_000] {
+				for &mp in &paths {
+					let mut q = Query::base(a);
+					q.max_paths = mp;
+					q.first_hops = Some(fh.clone());
+					q.tail = Tail::Clear { hints: vec![hint.clone()] };
+					out.push(q);
+				}
+			}
 		}
 	}
 
